@@ -138,6 +138,18 @@ def e_rename_enum_symbol(pkg, r):
     return dict(cls="?", name="rename-enum-symbol", where=(d.name,))
 
 
+def e_enum_to_flags(pkg, r):
+    """binary encoding is the same, the NDJSON encoding differs ("x" vs ["x"])"""
+    c = evo._pick(r, [(di, d) for di, d in enumerate(pkg.defs) if isinstance(d, En) and not d.flags and d.name in evo.reachable_defs(pkg)
+                      and all(v >= 0 for _, v in d.values)])
+    if not c:
+        return None
+    di, d = c
+    d.flags = True
+    d.explicit_values = True
+    return dict(cls="?", name="enum-to-flags", where=(d.name,))
+
+
 def e_vector_length(pkg, r):
     cands = [(di, mi, p, s) for di, mi, p, s in evo.sites(pkg) if isinstance(s, V) and not isinstance(pkg.defs[di], Al) and pkg.defs[di].name in evo.reachable_defs(pkg)]
     c = evo._pick(r, cands)
@@ -200,7 +212,7 @@ def e_rename_unreachable(pkg, r):
     return dict(cls="?", name="rename-unreachable-type", where=(old,))
 
 
-CANDIDATES = evo.ALL_EDITS + [e_rename_field, e_rename_step, e_rename_enum_symbol, e_vector_length, e_array_kind, e_dim_names, e_map_key, e_rename_unreachable]
+CANDIDATES = evo.ALL_EDITS + [e_rename_field, e_rename_step, e_rename_enum_symbol, e_vector_length, e_array_kind, e_dim_names, e_map_key, e_rename_unreachable, e_enum_to_flags]
 
 
 def encodings(pkg: Pkg, proto_name: str, pool):
